@@ -143,7 +143,7 @@ func (s *Stack) seam(label string, notFound error) error {
 	}
 	idx := len(s.seamCalls)
 	s.seamCalls = append(s.seamCalls, label)
-	if idx == s.FaultAt || idx == s.FaultAt2 || (s.FaultLabel != "" && s.FaultLabel == label && len(s.faultFired) == 0) {
+	if idx == s.FaultAt || idx == s.FaultAt2 || s.labelFault(label) {
 		s.faultFired = append(s.faultFired, label)
 		if s.FaultKind == FaultNotFound && notFound != nil {
 			return notFound
@@ -151,6 +151,29 @@ func (s *Stack) seam(label string, notFound error) error {
 		return ErrInjected
 	}
 	return nil
+}
+
+// labelFault decides a FaultLabel fault: "db.Save" fails the request's first db.Save,
+// "db.Save#2" its second one (s.seamCalls already contains the current call).
+func (s *Stack) labelFault(label string) bool {
+	if s.FaultLabel == "" || len(s.faultFired) > 0 {
+		return false
+	}
+	want, nth := s.FaultLabel, 1
+	if i := strings.IndexByte(want, '#'); i > 0 {
+		nth = int(want[i+1] - '0')
+		want = want[:i]
+	}
+	if want != label {
+		return false
+	}
+	n := 0
+	for _, l := range s.seamCalls {
+		if l == label {
+			n++
+		}
+	}
+	return n == nth
 }
 
 // note records an environment answer for the pruned schedule exploration.
